@@ -150,7 +150,7 @@ def _history_case(case):
                 ref = ref + c @ rho @ cd - 0.5 * (cd @ c @ rho + rho @ cd @ c)
             err = np.abs(-1j * (L @ _t(rho)).numpy() - ref).max() / scale
         napp += 1
-        if err > 1e-12:
+        if not err <= 1e-12:  # NaN fails
             return result(
                 False,
                 sig=f"history|{case['kind']}|after={change}",
@@ -209,7 +209,7 @@ def run_case(case):
         got = matmul_2x2_with_batched(_t(left), _t(right)).numpy()
         ref = np.einsum("ab,kbm->kam", left, right)
         err = np.abs(got - ref).max()
-        if err > 1e-12:
+        if not err <= 1e-12:  # NaN fails
             return result(False, sig="matmul_2x2_with_batched", msg=f"batched 2x2 matmul differs from left@right by {err:.2e} for shape {right.shape}", outcome="viol")
         return result(True, outcome=["matmul", case["k"], case["m"]])
 
@@ -235,7 +235,7 @@ def run_case(case):
         for k, v in enumerate(vecs):
             got = (H * _t(v)).numpy()
             err = np.abs(got - Href @ v).max() / scale
-            if err > 1e-12:
+            if not err <= 1e-12:  # NaN fails
                 return result(
                     False,
                     sig=f"H|phase={case['phase']}|omega={case['omega']}",
@@ -248,7 +248,7 @@ def run_case(case):
         psi = vecs[-1] / np.linalg.norm(vecs[-1])
         e = float(H.expect(StateVector(_t(psi), gpu=False)))
         eref = np.vdot(psi, Href @ psi).real
-        if abs(e - eref) > 1e-11 * scale:
+        if not abs(e - eref) <= 1e-11 * scale:  # NaN fails
             return result(False, sig="H.expect", msg=f"expect {e} != {eref}; N={n}", outcome="viol")
         return result(True, outcome=["H", n, case["omega"], case["phase"], bin(case["pattern"]).count("1")], transitions=len(vecs) + 1, nontrivial=nontrivial)
 
@@ -283,7 +283,7 @@ def run_case(case):
         got_cpu = (L @ _t(rho)).numpy()
         ref = gen(rho)
         err = np.abs(-1j * got_cpu - ref).max() / scale
-        if err > 1e-12:
+        if not err <= 1e-12:  # NaN fails
             return result(
                 False,
                 sig=f"L|jumps={case['jumps']}|phase={case['phase']}",
